@@ -407,6 +407,8 @@ def make_term(spec):
         return T.Or(make_term(spec["a"]), make_term(spec["b"]))
     if k == "and":
         return T.And(make_term(spec["a"]), make_term(spec["b"]))
+    if k == "or_collapse":       # (C06 only, outside the machine model) a condition that keeps a mask and drives Collapse
+        return T.Or(make_term(spec["a"]), T.CollapseAt(None, spec["tol"], spec["g"]))
     raise ValueError(k)
 
 
@@ -588,6 +590,8 @@ def modelled(case):
             return False
         if op["op"] == "SetTermination":
             term = True
+            if op["term"].get("kind") == "or_collapse":
+                return False
         if op["op"] in ("Step", "Solve") and not term:
             return False        # the solvers' default termination conditions are not in the machine model (generated scripts always set one)
     return case["solver"] in MODELLED
